@@ -28,6 +28,7 @@ import (
 	"strings"
 	"sync"
 	"syscall"
+	"time"
 
 	webdav "github.com/emersion/go-webdav"
 
@@ -1230,6 +1231,124 @@ func stageRootSpell(sink *hx.Sink) {
 	wg.Wait()
 }
 
+// ---- tworoots: the same subtree served from two different places of two different
+// surroundings (C17_response_independent_of_root / C17_history_independent_of_root): every
+// answer — status, every header, the whole body — must be the same bytes, and the served
+// subtrees must stay equal, for as long as the served directory exists.  Modification
+// times are pinned to the same instants in both before every request; what a PUT
+// announces from the clock is masked.
+
+func twoRootsLine(w int, sub *davx.Node, reqs []davx.Req) string {
+	relA := []string{"srv", "dav"}
+	relB := []string{"home", "u", "data", "store"}
+	treeA := davx.Dir("srv", davx.Dir("dav", sub.Clone(), "beside", davx.File("A")), "secret", davx.File("s"))
+	treeB := davx.Dir("home", davx.Dir("u", davx.Dir("data", davx.Dir("store", sub.Clone())), "other", davx.Dir("x", davx.File("B"))))
+	a := davx.NewSandbox(filepath.Join(scratch, fmt.Sprintf("ta%d", w), "verif-sb-7f3a"), relA)
+	b := davx.NewSandbox(filepath.Join(scratch, fmt.Sprintf("tb%d", w), "elsewhere", "deeper", "verif-sb-7f3a"), relB)
+	a.KeepRaw, b.KeepRaw = true, true
+	if err := a.Reset(treeA); err != nil {
+		fmt.Fprintln(os.Stderr, "dav: reset:", err)
+		os.Exit(2)
+	}
+	if err := b.Reset(treeB); err != nil {
+		fmt.Fprintln(os.Stderr, "dav: reset:", err)
+		os.Exit(2)
+	}
+	rootA := filepath.Join(append([]string{a.Dir}, relA...)...)
+	rootB := filepath.Join(append([]string{b.Dir}, relB...)...)
+	t0 := time.Unix(1600000000, 0)
+	diff, served := -1, 0
+	whatA, whatB := "", ""
+	for i, r := range reqs {
+		t := t0.Add(time.Duration(i) * time.Second)
+		davx.PinTimes(a.Dir, t)
+		davx.PinTimes(b.Dir, t)
+		_, oa, _ := a.DoNoSnapshot(r)
+		_, ob, _ := b.DoNoSnapshot(r)
+		served++
+		ra, rb := oa.Raw, ob.Raw
+		if oa.Panic {
+			ra = "(panic)"
+		}
+		if ob.Panic {
+			rb = "(panic)"
+		}
+		if ra != rb {
+			diff, whatA, whatB = i, ra, rb
+			break
+		}
+		sa, sb := davx.Snapshot(rootA), davx.Snapshot(rootB)
+		if !sa.SameShape(sb) {
+			diff, whatA, whatB = i, "subtree afterwards: "+sa.Sx(), "subtree afterwards: "+sb.Sx()
+			break
+		}
+		if sa == nil {
+			break // the served directory is gone: the theorem's premise ends here
+		}
+	}
+	os.RemoveAll(filepath.Dir(a.Dir))
+	os.RemoveAll(filepath.Join(scratch, fmt.Sprintf("tb%d", w)))
+	rs := []string{"reqs"}
+	for _, r := range reqs {
+		rs = append(rs, r.Sx())
+	}
+	return hx.L("tworoots", hx.L("tree", sub.Sx()), hx.L(rs...), hx.I(int64(served)), hx.I(int64(diff)), hx.S(whatA), hx.S(whatB))
+}
+
+func stageTwoRoots(sink *hx.Sink) {
+	n := 400
+	if hx.Tier() == "thorough" {
+		n = 6000
+	}
+	rng := hx.NewRand(hx.Seed() + 77)
+	long := strings.Repeat("n", 300)
+	type tr struct {
+		sub  *davx.Node
+		reqs []davx.Req
+	}
+	jobs := make(chan tr, 64)
+	go func() {
+		for i := 0; i < n; i++ {
+			r := rng.Fork(i)
+			sub := randTree(r, 3)
+			var reqs []davx.Req
+			for k := 0; k < 30; k++ {
+				q := randReq(r)
+				switch r.Intn(12) {
+				case 0: // names the OS refuses: its error text carries the host path until it is stripped
+					q.Path = "/" + long
+				case 1:
+					q.Path = q.Path + "/" + long + "/x"
+				case 2:
+					if q.Method == "COPY" || q.Method == "MOVE" {
+						q.Dest = "/" + long
+					}
+				case 3: // through a file
+					q.Path = strings.TrimSuffix(q.Path, "/") + "/below/it"
+				case 4:
+					q.Path = "/../" + strings.TrimPrefix(q.Path, "/")
+				case 5:
+					q.Path = q.Path + "\x00"
+				}
+				reqs = append(reqs, q)
+			}
+			jobs <- tr{sub, reqs}
+		}
+		close(jobs)
+	}()
+	var wg sync.WaitGroup
+	for w := 0; w < runtime.NumCPU(); w++ {
+		wg.Add(1)
+		go func(w int) {
+			defer wg.Done()
+			for j := range jobs {
+				sink.Put(twoRootsLine(w, j.sub, j.reqs))
+			}
+		}(w)
+	}
+	wg.Wait()
+}
+
 // ---- raceput: DELETE of the target while PUTs to it are being served (C17: leak bit only)
 
 func stageRacePut(sink *hx.Sink) {
@@ -1409,7 +1528,7 @@ func restoreSmall(sb *davx.Sandbox, tree, before *davx.Node) {
 func main() {
 	out := flag.String("out", "", "output file")
 	replay := flag.String("replay", "", "file of case lines to re-run")
-	stage := flag.String("stage", "universe", "universe|history|paths|traversal|cond|putfault|putsteps|headers|exotic|types|rootspell|raceput|wfault")
+	stage := flag.String("stage", "universe", "universe|history|paths|traversal|cond|putfault|putsteps|headers|exotic|types|rootspell|raceput|wfault|tworoots")
 	flag.Parse()
 	if *stage == "wfault-child" {
 		scratch = filepath.Join(os.Getenv("VERIF_SCRATCH"), "wfault-child")
@@ -1461,6 +1580,13 @@ func main() {
 				rr.FailAfter = -1
 				_, o, after, st := sb.DoSteps(rr, chunks, fails, before)
 				sink.Put(stepsLine(sb, before, r, fails, o, after, st))
+			case "tworoots":
+				sub := davx.ParseNode(items[0].List[1].List[1])
+				var reqs []davx.Req
+				for _, x := range items[0].List[2].Args() {
+					reqs = append(reqs, davx.ParseReq(x))
+				}
+				sink.Put(twoRootsLine(0, sub, reqs))
 			case "root":
 				rootRel, spell := davx.ParseRoot(items[0])
 				sb = davx.NewSandboxSpelled(workerDir(0), rootRel, spell)
@@ -1503,6 +1629,8 @@ func main() {
 		stageWFault(sink)
 	case "raceput":
 		stageRacePut(sink)
+	case "tworoots":
+		stageTwoRoots(sink)
 	default:
 		fmt.Fprintln(os.Stderr, "unknown stage")
 		os.Exit(2)
